@@ -97,6 +97,7 @@ def canonF : Expr → CST
   | .call f args => mkCall (wrap (needsParens f .postfix_) (canonF f)) (canonFArgs args)
   | .list items => mkList (canonFItems items)
   | .record es => mkRecord (canonFEntries es)
+  | .assign n v => .asg n [.sp] [.sp] (canonF v)
   /- only reached from `canonFArgs`: below a spread `format_single_line` is `expr_to_source` -/
   | .spread e => canon e
   | e => canon e
@@ -136,8 +137,9 @@ theorem canonF_normalize : ∀ t : Expr, (canonF t).normalize = canon t
   | .list items => by simp only [canonF, canon, mkList_normalize, canonFItems_normalize items]
   | .record es => by simp only [canonF, canon, mkRecord_normalize, canonFEntries_normalize es]
   | .spread e => by simp only [canonF, canon, canon_normalize e]
+  | .assign n v => by simp only [canonF, canon, CST.normalize, canonF_normalize v]
   | .bin .. | .un .. | .fact .. | .access .. | .dot .. | .cond .. | .ident _ | .builtin _ | .bool _
-  | .null | .num _ | .str _ | .inref _ | .doBlock .. | .assign .. | .output _ => by
+  | .null | .num _ | .str _ | .inref _ | .doBlock .. | .output _ => by
     simp only [canonF]; exact canon_normalize _
 theorem canonFArgs_normalize : ∀ args : List Expr, (canonFArgs args).map normPair = canonArgs args
   | [] => rfl
@@ -194,8 +196,9 @@ theorem canonF_layout : ∀ t : Expr, (canonF t).LayoutOk
   | .list items => mkList_layout (canonFItems_layout items)
   | .record es => mkRecord_layout (canonFEntries_layout es)
   | .spread e => canon_layout e
+  | .assign _ v => ⟨rfl, rfl, canonF_layout v⟩
   | .bin .. | .un .. | .fact .. | .access .. | .dot .. | .cond .. | .ident _ | .builtin _ | .bool _
-  | .null | .num _ | .str _ | .inref _ | .doBlock .. | .assign .. | .output _ => by
+  | .null | .num _ | .str _ | .inref _ | .doBlock .. | .output _ => by
     simp only [canonF]; exact canon_layout _
 theorem canonFArgs_layout : ∀ (args : List Expr), ∀ q ∈ canonFArgs args, q.2.LayoutOk
   | [] => by intro q hq; cases hq
@@ -382,6 +385,9 @@ def fmtCST (w indent : Nat) : Expr → CST
   | .doBlock ss (.mk _ e _) =>
     .doB [.sp] (breakLay indent) (fmtStmtsCST w indent ss) [.sp] (fmtCST w (indent + INDENT_SIZE) e)
       (nlLay indent)
+  | .assign n v =>
+    if fits w indent (.assign n v) then canonF (.assign n v)
+    else .asg n [.sp] [.sp] (fmtCST w indent v)
   | e => canon e
 def fmtArgsCST (w inner : Nat) : List Expr → List (Bool × CST)
   | [] => []
@@ -493,8 +499,10 @@ theorem fragB_noComments : ∀ (sp : Bool) (t : Expr), fragB sp t = true → con
     simp only [fragB, fragRet, Bool.and_eq_true] at h
     simp [containsComments, itemContainsComments, fragStmts_noComments ss h.1,
       fragB_noComments false e h.2.2]
-  | _, .inref _, h
-  | _, .assign _ _, h | _, .output _, h => by
+  | _, .assign n v, h => by
+    simp only [fragB, Bool.and_eq_true] at h
+    simp [containsComments, fragB_noComments false v h.2]
+  | _, .inref _, h | _, .output _, h => by
     simp [fragB] at h
 theorem fragArgs_noComments : ∀ args : List Expr, fragArgs args = true →
     exprsContainComments args = false
@@ -723,8 +731,15 @@ theorem canonF_text : ∀ (sp : Bool) (t : Expr), fragB sp t = true →
       cases r; simpa [Frag, frag, fragB] using h
     simp only [isSpread, spreadChars, Bool.false_eq_true, if_false, List.nil_append, canonF, hs]
     exact canon_text_frag _ hh
-  | _, .inref _, h
-  | _, .assign _ _, h | _, .output _, h => by
+  | _, .assign n v, h => by
+    simp only [fragB, Bool.and_eq_true] at h
+    have hv := canonF_text false v h.2
+    simp only [isSpread_of_frag h.2, spreadChars, Bool.false_eq_true, if_false, List.nil_append] at hv
+    simp only [isSpread, spreadChars, Bool.false_eq_true, if_false, List.nil_append, canonF,
+      CST.text, hv, fmtSingle, layChars, LayAtom.chars, String.toList_append, List.append_assoc,
+      List.cons_append, List.nil_append]
+    rfl
+  | _, .inref _, h | _, .output _, h => by
     simp [fragB] at h
 theorem canonFArgs_text : ∀ args : List Expr, fragArgs args = true →
     (canonFArgs args).map argS = (fmtSingleList args).map String.toList
@@ -842,6 +857,15 @@ theorem fmtImplP_un (w indent : Nat) (op : UnOp) (e : Expr) :
       if fits w indent (.un op e) then [.text (fmtSingle (.un op e))]
       else .text (unaryOpToSource op) :: parenP (needsParens e .prefix_) (fmtImplP w indent e) := by
   rw [fmtImplP]; rfl
+
+theorem fmtImplP_assign (w indent : Nat) (n : String) (v : Expr) :
+    fmtImplP w indent (.assign n v) =
+      if fits w indent (.assign n v) then [.text (fmtSingle (.assign n v))]
+      else .text (n ++ " = ") :: fmtImplP w indent v := by
+  rw [fmtImplP]; rfl
+
+theorem frag_assign {n : String} {v : Expr} (h : Frag (.assign n v)) : nameOk n = true ∧ Frag v := by
+  simpa [Frag, frag_assign_iff] using h
 
 theorem fmtImplP_fact (w indent : Nat) (e : Expr) :
     fmtImplP w indent (.fact e) =
@@ -1063,8 +1087,12 @@ theorem fmtCST_normalize : ∀ (t : Expr) (w indent : Nat), (fmtCST w indent t).
   | .doBlock ss (.mk _ e _), w, indent => by
     simp only [fmtCST, CST.normalize, fmtStmtsCST_normalize ss w indent,
       fmtCST_normalize e w (indent + INDENT_SIZE), canon]
+  | .assign n v, w, indent => by
+    unfold fmtCST
+    split
+    · exact canonF_normalize _
+    · simp only [CST.normalize, fmtCST_normalize v w indent, canon]
   | .inref _, _, _
-  | .assign _ _, _, _
   | .output _, _, _ => rfl
 theorem fmtChainCST_normalize : ∀ (t : Expr) (w indent : Nat) (x : CST),
     fmtChainCST w indent t = some x → x.normalize = canon t
@@ -1264,8 +1292,12 @@ theorem fmtCST_layout : ∀ (t : Expr) (w indent : Nat), (fmtCST w indent t).Lay
     simp only [fmtCST]
     exact ⟨⟨by simp, by simp, rfl⟩, fmtStmtsCST_layout ss w indent,
       fmtCST_layout e w (indent + INDENT_SIZE)⟩
-  | .inref _, _, _
-  | .assign _ _, _, _ | .output _, _, _ => trivial
+  | .assign n v, w, indent => by
+    unfold fmtCST
+    split
+    · exact canonF_layout _
+    · exact ⟨rfl, rfl, fmtCST_layout v w indent⟩
+  | .inref _, _, _ | .output _, _, _ => trivial
 theorem fmtChainCST_layout : ∀ (t : Expr) (w indent : Nat) (x : CST),
     fmtChainCST w indent t = some x → x.LayoutOk
   | .cond c t e, w, indent, x, h => by
@@ -1762,8 +1794,21 @@ theorem fmtCST_textB : ∀ (sp : Bool) (t : Expr) (w indent : Nat), fragB sp t =
       simp only [List.append_assoc]
     rw [e1, hst]
     simp [layChars, LayAtom.chars, layChars_breakLay, retLit, render_nil]
-  | _, .inref _, _, _, h
-  | _, .assign _ _, _, _, h | _, .output _, _, _, h => by simp [fragB] at h
+  | sp, .assign n v, w, indent, h => by
+    have hh : Frag (.assign n v) := by simpa [Frag, frag, fragB] using h
+    have hv := fmtCST_textB false v w indent (frag_assign hh).2
+    simp only [isSpread_of_frag (frag_assign hh).2, spreadChars, Bool.false_eq_true, if_false,
+      List.nil_append] at hv
+    unfold fmtImpl at hv ⊢
+    rw [fmtImplP_assign]
+    simp only [isSpread, spreadChars, Bool.false_eq_true, if_false, List.nil_append]
+    unfold fmtCST
+    split
+    · rw [render_single]; exact canonF_text_frag _ hh
+    · simp only [render_text, String.toList_append, CST.text, hv, layChars, LayAtom.chars,
+        List.append_assoc, List.cons_append, List.nil_append]
+      rfl
+  | _, .inref _, _, _, h | _, .output _, _, _, h => by simp [fragB] at h
 theorem fmtChain_text : ∀ (t : Expr) (w indent : Nat) (x : CST), Frag t →
     fmtChainCST w indent t = some x →
     ∃ ps, fmtChainP w indent t = some ps ∧ x.text = (render ps).toList
